@@ -1,7 +1,96 @@
-(* C04 - placeholder while the correspondence is being validated *)
+(* C04 - run verdict and stop control are consistent with the outcomes reported.
+   Only statements; every proof is `exact <lemma of Proof/C04.v>`. *)
 From TT Require Import Lib.Base Model.Result Spec.C04 Corr.C04 Proof.C04.
+
+(* The model meets the whole statement for every stack (any nesting of MultiTestResult,
+   ThreadsafeForwardingResult, ExtendedToOriginalDecorator, TestResultDecorator/Tagger over TestResult /
+   TextTestResult / ExtendedToStreamDecorator results), every failfast configuration outside known finding F18,
+   and every history of calls. *)
+Theorem C04_holds : forall i : input, wf i -> finding_F18 i = false -> spec_okb i (model i) = true.
+Proof. exact model_meets_spec. Qed.
+Print Assumptions C04_holds.
+
+(* ... and the executable statement implies the readable one (Spec.C04.Spec). *)
+Theorem C04_statement : forall i o, spec_okb i o = true -> Spec i o.
+Proof. exact spec_okb_sound. Qed.
+Print Assumptions C04_statement.
+
+(* F18 (known finding): with failfast assigned on a ThreadsafeForwardingResult after wrapping, or a
+   failfast=True result put into a MultiTestResult, the faithful model violates the full statement. *)
+Theorem C04_refuted_F18 :
+  (wf witness_F18a /\ finding_F18 witness_F18a = true /\ spec_okb witness_F18a (model witness_F18a) = false)
+  /\ (wf witness_F18b /\ finding_F18 witness_F18b = true /\ spec_okb witness_F18b (model witness_F18b) = false).
+Proof. exact refuted_F18. Qed.
+Print Assumptions C04_refuted_F18.
+
+(* verdict: wasSuccessful() after any calls = no error / failure / unexpected success since the last startTestRun *)
+Theorem C04_verdict : forall i pre, wf i -> finding_F18 i = false -> has_e2s i = false ->
+  was_ok (fold_left do_op pre (init (stack i) (set_after i))) = want_ok pre.
+Proof. exact was_ok_after. Qed.
+Print Assumptions C04_verdict.
+
+(* summaries: every TextTestResult in the stack, at every stopTestRun: test count, OK / FAILED (failures=n),
+   one section per problem - all computed from the calls since the last startTestRun *)
+Theorem C04_summary : forall i, finding_F18 i = false ->
+  Forall2 (fun li sums => (if li_text li
+                           then forall2b (summary_okb (li_tfr li)) (before_stop_runs [] (hist i)) sums
+                           else match sums with [] => true | _ => false end) = true)
+          (leaf_infos (stack i))
+          (leaf_outs (fold_left do_op (hist i) (init (stack i) (set_after i)))).
+Proof. exact sums_after. Qed.
+Print Assumptions C04_summary.
+
+(* failfast / stop: shouldStop of every underlying result after any calls = stop() was called on it or on
+   something above it, or failfast is set and a bad outcome was reported - since the last startTestRun;
+   in particular not before the first bad outcome *)
+Theorem C04_failfast : forall i pre, finding_F18 i = false ->
+  leaf_stops (fold_left do_op pre (init (stack i) (set_after i)))
+  = map (want_leaf_stop i pre) (leaf_infos (stack i)).
+Proof. exact leaf_stops_after. Qed.
+Print Assumptions C04_failfast.
+
+(* stop() on any node sets shouldStop on every result below it; the outermost shouldStop is the
+   disjunction over the underlying results (what a suite consults) *)
+Theorem C04_stop_reaches : forall p n,
+  Forall2 (fun pa b => is_prefix p pa = true -> b = true) (fpaths (frame n)) (leaf_stops (stop_at p n))
+  /\ Forall (fun b => b = true) (leaf_stops (stop n))
+  /\ should_stop n = existsb (fun b => b) (leaf_stops n).
+Proof. exact (fun p n => conj (stop_at_reaches p n) (conj (stop_reaches_all n) (should_stop_any n))). Qed.
+Print Assumptions C04_stop_reaches.
+
+(* one call, seen from the underlying results: each receives it (as a whole test below a forwarder) and is
+   stopped exactly when the call is a bad outcome and the stack's failfast reaches it - for EVERY state *)
+Theorem C04_step : forall n o, lvs (do_op n o) = map2 (fun s l => leaf_do s l o) (statics (frame n)) (lvs n)
+                               /\ frame (do_op n o) = frame n.
+Proof. exact (fun n o => conj (do_op_ok n o) (frame_do_op n o)). Qed.
+Print Assumptions C04_step.
+
+(* run.py: sys.exit(not result.wasSuccessful()) *)
+Theorem C04_exit : forall ok, exit_status ok = 0 <-> ok = true.
+Proof. exact exit_status_ok. Qed.
+Print Assumptions C04_exit.
+
+(* table obligation, re-stated against Gen/Resulttabs.v on every run: StreamFailFast reacts exactly to the
+   status words ExtendedToStreamDecorator emits for addError / addFailure / addUnexpectedSuccess *)
+Theorem C04_table_failfast : forall k, in_words (status_of k) Gen.Resulttabs.failfast_statuses = bad k.
+Proof. exact table_failfast. Qed.
+Print Assumptions C04_table_failfast.
+
+(* the correspondence compares observations exactly *)
+Theorem C04_obs_eqb : forall a b, obs_eqb a b = true <-> a = b.
+Proof. exact obs_eqb_spec. Qed.
+Print Assumptions C04_obs_eqb.
+
+(* non-vacuity: failfast set after wrapping on a MultiTestResult over a forwarder and an explicit decorator;
+   a failure stops both results at once, the summary counts it, a second run starts clean, stop() on the
+   forwarder reaches its TextTestResult only *)
 Example C04_example :
   let i := {| stack := AMulti [ATFR (ATR false true); AE2O (ATR false false)]; set_after := Some true;
-              hist := [StartRun; StartTest 1; Outcome KFailure 1; StopTest 1; StopRun; StartRun; StopAt [0]] |} in
-  spec_okb i (model i) = true /\ finding_F18 i = false.
-Proof. vm_compute. split; reflexivity. Qed.
+              hist := [StartRun; StartTest 1; Outcome KSuccess 1; StopTest 1; StartTest 2; Outcome KFailure 2;
+                       StopTest 2; StopRun; StartRun; StopAt [0]] |} in
+  wf i /\ finding_F18 i = false
+  /\ o_ok (model i) = [true; true; true; true; true; false; false; false; true; true]
+  /\ o_stop (model i) = [false; false; false; false; false; true; true; true; false; true]
+  /\ nth 9 (o_leaf_stop (model i)) [] = [true; false]
+  /\ o_sums (model i) = [[{| s_ran := 2; s_failed := Some 1; s_sections := [(1, 2)] |}]; []].
+Proof. vm_compute. repeat split. Qed.
